@@ -88,7 +88,7 @@ pub struct Hx {
     pub ret_bracket: Vec<(u32, bool)>,
     pub stats: Stats,
     pub last_recreate_hm: i64,
-    pub fwd_bodies: Vec<(BodyIdx, Option<ActorId>)>,
+    pub fwd_bodies: Vec<(BodyIdx, Option<ActorId>, bool)>,
     pub op_count: u64,
     pub weak_backref: bool,
     pub logs: super::logchk::LogState,
@@ -439,7 +439,7 @@ impl Drop for RetW {
                         }
                         None
                     }
-                    (3, Some(t)) => Some(t),
+                    (3, Some(t)) | (5, Some(t)) => Some(t),
                     _ => None,
                 }
             });
@@ -622,6 +622,25 @@ impl Act {
         ret_delivered(id, m.is_some());
         let mut fr = Frame::default();
         run_item_fr(&mut Env::Prep(cx), id, &mut fr);
+        drop(m);
+        if fr.ret_some {
+            Some(Act {
+                aid: fr.aid.unwrap(),
+                bag: std::mem::take(&mut fr.state_bag),
+                slab: ActorOwnSlab::new(),
+            })
+        } else {
+            None
+        }
+    }
+    pub fn on_ret_some_prep<const S: usize, A: Copy + 'static>(cx: CX![], tag: ICap<S, A>, m: Msg) -> Option<Self> {
+        Self::on_ret_prep(cx, tag, Some(m))
+    }
+    pub fn on_fwd_prep(cx: CX![], _fid: u32, mut m: Msg) -> Option<Self> {
+        let mut fr = Frame::default();
+        if let Some(id) = m.item.take() {
+            run_item_fr(&mut Env::Prep(cx), id, &mut fr);
+        }
         drop(m);
         if fr.ret_some {
             Some(Act {
@@ -977,6 +996,7 @@ macro_rules! m_ret_to {
         match $kind {
             2 => ret_to!([$actor], on_ret(tag) as (Msg)),
             3 => ret_some_to!([$actor], on_ret_some(tag) as (Msg)),
+            5 => ret_some_to!([$actor], Act::on_ret_some_prep(tag) as (Msg)),
             _ => ret_to!([$actor], Act::on_ret_prep(tag) as (Msg)),
         }
     }};
@@ -1445,7 +1465,7 @@ pub fn exec_op(env: &mut Env, op: &Op, bag: &mut Vec<Handle>, fr: &mut Frame) {
             sub_prep(&actor, shape, id);
         }
         Op::MakeRet { kind, a, shape, body } => {
-            let kind = kind % 5;
+            let kind = kind % 6;
             let target = if kind >= 2 { hx(|h| h.actor_ref(a)) } else { None };
             if kind >= 2 && target.is_none() {
                 return;
@@ -1455,7 +1475,7 @@ pub fn exec_op(env: &mut Env, op: &Op, bag: &mut Vec<Handle>, fr: &mut Frame) {
                 let rid = h.rets.len() as u32;
                 let tag = match (kind, &target) {
                     (2, Some((aid, _))) | (3, Some((aid, _))) => Some(h.new_item(Kind::Call(*aid), Q::Main, body)),
-                    (4, Some((aid, _))) => Some(h.new_item(Kind::PrepCall(*aid), Q::Main, body)),
+                    (4, Some((aid, _))) | (5, Some((aid, _))) => Some(h.new_item(Kind::PrepCall(*aid), Q::Main, body)),
                     _ => None,
                 };
                 if let Some(t) = tag {
@@ -1475,14 +1495,14 @@ pub fn exec_op(env: &mut Env, op: &Op, bag: &mut Vec<Handle>, fr: &mut Frame) {
             bag.push(Handle::Ret(RetW { r: Some(r), rid, aid: target_aid }));
         }
         Op::MakeFwd { kind, a, body } => {
-            let kind = kind % 2;
-            let target = if kind == 0 { hx(|h| h.actor_ref(a)) } else { None };
-            if kind == 0 && target.is_none() {
+            let kind = kind % 3;
+            let target = if kind != 1 { hx(|h| h.actor_ref(a)) } else { None };
+            if kind != 1 && target.is_none() {
                 return;
             }
             let fwd_aid = target.as_ref().map(|t| t.0);
             let fid = hx(|h| {
-                h.fwd_bodies.push((body, target.as_ref().map(|t| t.0)));
+                h.fwd_bodies.push((body, target.as_ref().map(|t| t.0), kind == 2));
                 h.live_handles += 1;
                 (h.fwd_bodies.len() - 1) as u32
             });
@@ -1490,6 +1510,10 @@ pub fn exec_op(env: &mut Env, op: &Op, bag: &mut Vec<Handle>, fr: &mut Frame) {
                 0 => {
                     let actor = &target.unwrap().1;
                     fwd_to!([actor], on_fwd(fid) as (Msg))
+                }
+                2 => {
+                    let actor = &target.unwrap().1;
+                    fwd_to!([actor], Act::on_fwd_prep(fid) as (Msg))
                 }
                 _ => fwd_do!(move |m: Msg| fwd_handler(fid, m)),
             };
@@ -1544,11 +1568,11 @@ pub fn exec_op(env: &mut Env, op: &Op, bag: &mut Vec<Handle>, fr: &mut Frame) {
                 let fid = w.fid;
                 let f = w.f.clone();
                 let item = hx(|h| {
-                    let (body, aid) = h.fwd_bodies[fid as usize];
+                    let (body, aid, prep) = h.fwd_bodies[fid as usize];
                     h.stats.clone_drop_ops += 1;
                     match aid {
                         Some(aid) => {
-                            let id = h.new_item(Kind::Call(aid), Q::Main, body);
+                            let id = h.new_item(if prep { Kind::PrepCall(aid) } else { Kind::Call(aid) }, Q::Main, body);
                             h.tr(|| format!("fwd f{} -> call i{} to a{}", fid, id, aid));
                             if !h.dead {
                                 h.mon.submit_main(id);
